@@ -68,6 +68,98 @@ fn has_zero_leading_literal(p: &Program) -> bool {
     pr(p)
 }
 
+/// shipped programs that declare a modern sigil (small enough to compile 8 times in a quick tier)
+pub fn shipped_programs() -> Vec<(String, String)> {
+    crate::gen_text::shipped_corpus()
+        .iter()
+        .filter(|(p, t)| p.ends_with(".clsp") && t.len() < 6_000 && MODERN.iter().any(|d| t.contains(d.sigil())))
+        .cloned()
+        .collect()
+}
+
+/// clauses (1) and (3) on a shipped program; returns the number of builds that compiled
+fn judge_shipped(path: &str, text: &str, st: &mut Stats) -> Result<usize, Viol> {
+    let Some(d) = MODERN.iter().copied().find(|d| text.contains(d.sigil())) else {
+        return Ok(0);
+    };
+    let dir = std::path::Path::new(path).parent().map(|p| p.to_string_lossy().to_string()).unwrap_or_default();
+    let search = vec![dir, "/repo/resources/tests".to_string(), "/repo/resources/tests/bridge-includes".to_string()];
+    let compile = |mo: ModernOpts| sut::compile_modern(text, d.sigil(), mo, path, &search).map(|c| c.code).map_err(|e| e.1);
+    // generic argument trees: most shipped programs raise on them, some return
+    let argsets: Vec<V> = vec![
+        nil(),
+        list(vec![int(1)]),
+        list(vec![int(1), int(2), int(3)]),
+        list(vec![list(vec![int(1), int(2)]), int(3), list(vec![int(4), int(5), int(6)])]),
+        list(vec![int(10), int(20), int(30), int(40), int(50), int(60)]),
+        list(vec![V::A(vec![0x11; 32]), int(7), list(vec![int(1), int(2), int(3)]), int(0)]),
+    ];
+    let mut compiled = 0;
+    let mut first_values: Option<Vec<Option<V>>> = None;
+    // clause (3) is per frontend_opt setting (the frontend optimiser has its own, documented,
+    // "don't yet support" rejections): each group has its own all-off base
+    for fe in [false, true] {
+        let base_opts = ModernOpts { optimize: false, frontend_opt: fe, post_opt: false };
+        crate::worker::heartbeat();
+        let Ok(base) = compile(base_opts) else {
+            continue;
+        };
+        compiled += 1;
+        st.label(&format!("shipped:{}", d.name()));
+        let base_runs: Vec<Option<V>> = argsets.iter().map(|a| sut::run_consensus(&base, a, RUN_COST).ok()).collect();
+        if base_runs.iter().any(|r| r.is_some()) {
+            st.label("shipped:returns-on-a-generic-argument");
+        }
+        // clause (1) across the two groups
+        if let Some(fv) = &first_values {
+            for ((a, x), y) in argsets.iter().zip(fv.iter()).zip(base_runs.iter()) {
+                if let (Some(x), Some(y)) = (x, y) {
+                    if x != y {
+                        return Err(Viol::new("shipped:builds-return-different-values:fe", x.show(), y.show(), json!({"file": path, "source": text, "dialect": d.name(), "options": base_opts.name(), "detail": {"args": a.show()}})));
+                    }
+                }
+            }
+        } else {
+            first_values = Some(base_runs.clone());
+        }
+        for mo in all_opts() {
+            if mo.frontend_opt != fe || mo.name() == base_opts.name() {
+                continue;
+            }
+            crate::worker::heartbeat();
+            let case = |extra: Value| json!({"file": path, "source": text, "dialect": d.name(), "options": mo.name(), "detail": extra});
+            match compile(mo) {
+                Err(e) => {
+                    // the classic post-optimiser folds constant sub-expressions and rejects the
+                    // program when one of them fails for every input -- by design, and outside the
+                    // property's quantifier; shipped negative tests (coinid-fail, ...) are of that kind
+                    if mo.post_opt {
+                        st.label("shipped:post-optimiser-rejected(constant failure; outside the quantifier)");
+                        continue;
+                    }
+                    return Err(Viol::new(&format!("shipped:optimised-build-rejects:{}", mo.name()), "compiles (the build of the same frontend_opt setting with the other switches off does)", e, case(json!({}))));
+                }
+                Ok(code) => {
+                    compiled += 1;
+                    for (a, b) in argsets.iter().zip(base_runs.iter()) {
+                        let r = sut::run_consensus(&code, a, RUN_COST);
+                        match (b, r) {
+                            (Some(bv), Ok(v)) if &v != bv => {
+                                return Err(Viol::new(&format!("shipped:builds-return-different-values:{}", mo.name()), bv.show(), v.show(), case(json!({"args": a.show(), "args_hex": hex(&a.ser())}))));
+                            }
+                            (Some(bv), Err(m)) if !sut::is_cost_exceeded(&m) => {
+                                return Err(Viol::new(&format!("shipped:optimised-build-fails:{}", mo.name()), bv.show(), m, case(json!({"args": a.show(), "args_hex": hex(&a.ser())}))));
+                            }
+                            _ => {}
+                        }
+                    }
+                }
+            }
+        }
+    }
+    Ok(compiled)
+}
+
 struct Build {
     d: Dialect,
     mo: ModernOpts,
@@ -203,20 +295,41 @@ impl Prop for C02Prop {
         "C02"
     }
     fn rule(&self) -> &'static str {
-        "The C01 generator's programs, each built under 3 sigils (one of cl21/strict-cl21/cl22, cl23, one of cl23.1/cl24) x all 8 option sets {optimize, frontend_opt, classic post-optimiser} = 24 builds, run on 3 generated argument trees. Oracle: (1) all builds that compile and return a value return the same value (across the two integer-mode groups only when the program has no zero-leading-byte literal); (2) that value equals the reference interpreter's when defined, and a build may not fail where the reference returns; (3) per sigil and frontend_opt setting, if the build with optimize and post-optimiser off compiles and returns a value then every build that only switches optimisation on compiles and returns. Non-trivial: at least two builds produced different code and at least one returned a value. Distinct by hash of source + arguments."
+        "The C01 generator's programs, each built under 3 sigils (one of cl21/strict-cl21/cl22, cl23, one of cl23.1/cl24) x all 8 option sets {optimize, frontend_opt, classic post-optimiser} = 24 builds, run on 3 generated argument trees. Oracle: (1) all builds that compile and return a value return the same value (across the two integer-mode groups only when the program has no zero-leading-byte literal); (2) that value equals the reference interpreter's when defined, and a build may not fail where the reference returns; (3) per sigil and frontend_opt setting, if the build with optimize and post-optimiser off compiles and returns a value then every build that only switches optimisation on compiles and returns. Second section (shipped): every .clsp under resources/tests (< 6 KB) that declares a modern sigil and compiles with every switch off, with its own directory, resources/tests and bridge-includes on the search path: all 8 option sets must compile (clause 3) and, on six generic argument trees, every build must return what the all-off build returns wherever that one returns (clauses 1 and 3); most shipped programs raise on generic arguments, which is counted. Non-trivial: at least two builds produced different code and at least one returned a value; or a shipped program compiled under all option sets. Distinct by hash of source + arguments."
     }
     fn sections(&self, tier: Tier) -> Vec<Section> {
         vec![Section {
             name: "random",
             kind: SectionKind::Random {
-                cases: tier.pick(600, 15_000),
+                cases: tier.pick(600, 4_000),
                 maxlen: 6000,
             },
             exhaustive: false,
             what: "generated programs x 3 sigils x 8 option sets x 3 argument trees",
+        }, Section {
+            name: "shipped",
+            kind: SectionKind::Enum {
+                count: shipped_programs().len() as u64,
+            },
+            exhaustive: true,
+            what: "every program under resources/tests that declares a modern sigil and compiles with all switches off (with its own directory and resources/tests on the search path): the 8 option sets x generic argument trees; builds that return must agree, and switching optimisation on must not lose the compile or the return",
         }]
     }
     fn run(&self, sec: &str, input: &Input, tier: Tier, st: &mut Stats) -> Verdict {
+        if let ("shipped", Input::Index(i)) = (sec, input) {
+            let progs = shipped_programs();
+            let (path, text) = &progs[*i as usize % progs.len()];
+            return match judge_shipped(path, text, st) {
+                Err(v) => Verdict::Violation(Box::new(v)),
+                Ok(0) => Verdict::Skip("does not compile with all switches off under its own sigil (needs other include paths, or is a negative test)"),
+                Ok(n) => {
+                    st.label("shipped-checked");
+                    st.nontrivial(fnv(path.as_bytes()));
+                    st.sample(|| json!({"section": "shipped", "file": path, "builds_compiled": n}));
+                    Verdict::Pass
+                }
+            };
+        }
         match (sec, input) {
             ("random", Input::Bytes(bytes)) => {
                 let case = decode_case(bytes, tier, None);
